@@ -105,6 +105,8 @@ def make_table(n, k, q, seed, style):
     rng = np.random.default_rng([int(seed), n, k, q, STYLES.index(style)])
     idx = np.array(list(itertools.combinations(range(n + 1), k)), dtype=np.int64)
     N = len(idx)
+    if N == 0:
+        return np.full((n + 1,) * k + (q,), np.nan)
     if style == "perm":
         vals = rng.permutation(N) + 1.0
     elif style == "signed":
